@@ -8,7 +8,9 @@ use crate::derive::{
 };
 use proc_macro2::TokenStream;
 use quote::quote;
-use syn::{DataEnum, DeriveInput, Fields, Index, Result, parse_quote, spanned::Spanned};
+use syn::{
+    DataEnum, DeriveInput, Fields, Index, Result, ext::IdentExt, parse_quote, spanned::Spanned,
+};
 
 pub fn expand_type_support(input: &DeriveInput) -> Result<TokenStream> {
     let ident = &input.ident;
@@ -61,7 +63,7 @@ pub fn expand_type_support(input: &DeriveInput) -> Result<TokenStream> {
                 let member_name = member
                     .ident
                     .as_ref()
-                    .map(|i| i.to_string())
+                    .map(|i| i.unraw().to_string())
                     .unwrap_or(member_index.to_string());
 
                 let member_id = if struct_member_attributes.hashid {
